@@ -168,3 +168,25 @@ def observer_family():
                     fam.append(L1 + L2 + [["send", 1, "PASV"], ["dconnect", 1]] + pre + [["gate", 1, "write", j], ["send", 1, verb],
                                ["dsend", 1, [21, 22, 23, 24, 25]]] + look + [["release", 1], ["deof", 1], ["send", 1, "PWD"], ["send", 2, "MLST f"]])
     return fam
+
+
+def parked_restart_family():
+    """REST n, then the transfer command before its data connection exists, then other commands, then the data connection:
+    the transfer still starts at n (and the next transfer at 0)."""
+    fam = []
+    s = 1
+    login = [["connect", s], ["send", s, "USER u1"], ["send", s, "PASS pw1"]]
+    between = [[], [["send", s, "PWD"]], [["send", s, "TYPE I"], ["send", s, "MLST f"]], [["send", s, "CWD d"], ["send", s, "CDUP"]], [["send", s, "XYZZY"]],
+               [["send", s, "REST 1"]], [["send", s, "RNFR f"]], [["tick", 300]]]
+    for pasv in ("PASV", "EPSV"):
+        for rest in (1, 3, 5, 9):
+            for verb, data in (("RETR f", None), ("STOR f", [21, 22]), ("APPE f", [23]), ("STOR new", [24, 25, 26])):
+                for b in between:
+                    st = login + [["send", s, pasv], ["send", s, "REST %d" % rest], ["send", s, verb]] + b + [["dconnect", s]]
+                    if data is not None:
+                        st += [["dsend", s, data]]
+                    st += [["deof", s], ["send", s, "MLST " + verb.split(" ")[1]]]
+                    # the offset is used up: the same transfer again is a whole one
+                    st += [["send", s, pasv], ["dconnect", s], ["send", s, "RETR " + verb.split(" ")[1]], ["deof", s]]
+                    fam.append(st)
+    return fam
